@@ -69,9 +69,10 @@ CHECKS['C15'] = dict(
 CHECKS['C08'] = dict(
     text='Machine-checked: C08_new_key_rejected (for every older container, depth and key: a key that does not exist, offered by a node that does not allow new paths, is a MergeError), '
          'C08_children_inherit (!notnew makes all children refuse creation, a nested !new re-allows it), C08_first_stage (a !notnew node anywhere in a first document fails the build). '
-         'allow_new / _get_child_kwargs are tied exhaustively (T2); the recursion by sampled correspondence on !new/!notnew histories incl. function nodes. Partial: the global statement '
-         '"no path exists afterwards that did not exist before" and the command-line grammar are decided by the correspondence and by reference oracles (path-existence rule; exact single-path '
-         'update incl. mistyped keys, out-of-range and negative indices), not yet by a theorem.',
+         'allow_new / _get_child_kwargs are tied exhaustively (T2); the recursion by sampled correspondence on !new/!notnew histories incl. function nodes. C08_cmdline_path: for EVERY non-empty sequence of '
+         'well-formed name[index]* groups the inline-option parser recovers exactly the path NodePath renders (the translation to YAML text is tied character by character to '
+         'Config.process_cmdline). Partial: the global statement "no path exists afterwards that did not exist before" and "sets exactly that path and changes nothing else" are decided '
+         'by the correspondence and by reference oracles (path-existence rule; exact single-path update incl. mistyped keys, out-of-range and negative indices), not by a theorem.',
     design='4 (C08)',
     technique='Coq lemmas on the creation gate of the merge loop + exhaustive flag correspondence + sampled merge correspondence; path-existence and command-line oracles for replays')
 
